@@ -28,10 +28,16 @@ EXPLANATION = ("SIBLINGS-AGREE on generic arguments of get_metadata / make_subsc
                "Iterator chains and for loops are treated alike (a value is an *element* of a collection: Iterator::next in its slice, or the item parameter of an adaptor closure), closure "
                "captures are resolved in the enclosing function, anchors are roles (parameter types, field names, callees), never local names. Enum-to-enum tables (location) and the "
                "deserialiser guards are read off a path-sensitive propagation of small known values (bool flags, field-less variants, tuples of them) with a record of which variant each "
-               "watched match took (lib_c07.path_states), so a second match, an `if flag`, a `matches!` guard or an inlined helper are the same program; mime_type / from_mime_type are "
-               "decided by interpreting both (absint) over every variant, every string they mention and one string equal to none of them.")
+               "watched match took (lib_c07.path_states; a known value carried as the payload of an Option / a private enum is read back through the downcast), so a second match, an `if flag`, "
+               "a `matches!` guard, a private `Format` enum or an inlined helper are the same program; mime_type / from_mime_type are "
+               "decided by interpreting both (absint) over every variant, every string they mention and one string equal to none of them (a constant table is an array literal to the "
+               "interpreter). The hand-written error schema is read off the value json_schema returns, by interpretation with a model of building collections (struct literal over collect(), "
+               "inserts on a default value, a loop over a constant table). Tuple members are the Self types of direct metadata calls or of the function items that reach an indirect call "
+               "(a fold / loop over a list of the members' metadata functions). Carrier structs and construction sites are anchored by role (fields, callers' region), not by the function "
+               "or closure that happens to contain them; generic helpers are read at the instantiation of the call (engine substitution, or the FnDef type of a function value).")
 TRUSTED = ["rustc nightly MIR construction + const evaluation", "mirfacts extractor", "rules/engine.py slices, dominators", "schemars derive + serde derive agree on field names",
-           "openapiv3 serialisation", "C12 (status table, JSON serialisation)", "rules/absint.py interpreter + rules/lib_c07.py summaries of array iteration (into_iter / next / find / find_map)"]
+           "openapiv3 serialisation", "C12 (status table, JSON serialisation)", "rules/absint.py interpreter + rules/lib_c07.py summaries of array iteration (into_iter / next / find / find_map) and of collection building "
+           "(Default::default, new, insert / push / extend / collect, into / to_string / Box::new / clone as value-preserving)"]
 
 DESER = r"^http_util::http_extract_path_params$|^serde_urlencoded::from_(str|bytes|reader)$|^serde_path_to_error::deserialize$|^serde_json::from_(slice|str|reader)$"
 # ways the optional query string of the URI is handed to the deserialiser as it is: a default for "no query string", the same text as bytes,
@@ -474,18 +480,20 @@ def r3_content_type(ctx):
             ctx.check(R, "%s:served-with-it" % tag, same and not callee_allow(bs, allow), "ApiEndpoint.body_content_type is the same parsed value: %s" % same, (f, b))
     # router hands the endpoint's value to the request context
     lr = ctx.need_fn(ds, R, r"^router::HttpRouter::<Context>::lookup_route$")
-    aggs = [(b, st) for b, i, st in lr.aggregates(r"^handler::RequestEndpointMetadata$") if b in lr.reachable(0)]
+    # the construction site is looked for under lookup_route wherever the refactoring of the day puts it: in the function itself, in a
+    # closure of it (`segments(..).map_err(..).and_then(|s| self.lookup_segments(..))` with the helper inlined into the closure)
+    aggs = [(g, b, st) for g in [lr] + ds.descendants(lr) for b, i, st in g.aggregates(r"^handler::RequestEndpointMetadata$") if b in g.reachable(0)]
     who = [(g.id, b) for g in ds.F.values() if not g.id.startswith(("test_util", "websocket")) for b, i, st in g.aggregates(r"^handler::RequestEndpointMetadata$")]
     ctx.check(R, "router:one-construction-site", len(aggs) == 1 and len(who) == 1, "RequestEndpointMetadata built at %s" % sorted(set(w[0] for w in who)), lr)
-    for b, st in aggs:
-        bs = lr.slice(agg_field_op(st, "body_content_type"), stop_at_calls=r"find_handler_matching_version$")
+    for g, b, st in aggs:
+        bs = g.slice(agg_field_op(st, "body_content_type"), stop_at_calls=r"find_handler_matching_version$")
         ok = bs.reads_field("body_content_type") and bs.has_call(r"find_handler_matching_version$") and only_plumbing(bs, [r"find_handler_matching_version$"])
         if not ok:
             from .lib_c01 import answer_field_from_selection
             lrn = ctx.dsn.one(r"^router::HttpRouter::<Context>::lookup_route$")
-            an = [st2 for b2, i2, st2 in lrn.aggregates(r"^handler::RequestEndpointMetadata$")] if lrn else []
-            ok = len(an) == 1 and answer_field_from_selection(ctx.dsn, lrn, agg_field_op(an[0], "body_content_type"), "body_content_type")[0]
-        ctx.check(R, "router:passes-endpoint-content-type", ok, "RequestEndpointMetadata.body_content_type = selected endpoint's body_content_type: %s (callees %s)" % (ok, bs.callee_names()), (lr, b))
+            an = [(h, st2) for h in ([lrn] + ctx.dsn.descendants(lrn) if lrn else []) for b2, i2, st2 in h.aggregates(r"^handler::RequestEndpointMetadata$") if b2 in h.reachable(0)]
+            ok = len(an) == 1 and answer_field_from_selection(ctx.dsn, an[0][0], agg_field_op(an[0][1], "body_content_type"), "body_content_type")[0]
+        ctx.check(R, "router:passes-endpoint-content-type", ok, "RequestEndpointMetadata.body_content_type = selected endpoint's body_content_type: %s (callees %s)" % (ok, bs.callee_names()), (g, b))
     # TypedBody documents the content type it is given
     im = _impl_of(ds, "extractor::common::ExclusiveExtractor", "extractor::body::TypedBody<")
     md = _impl_fn(ds, im, "metadata") if im else None
@@ -1312,6 +1320,9 @@ SELFTEST = [
     {"name": "error-response-ctor-renames-entry", "kind": "mutant", "expect": ["C07.R9"], "patch": "benign/C06-R9/patch.diff",
      "edits": [(A, "        ErrorResponse { name, reference, response }\n    }", "        ErrorResponse { name: format!(\"{name}Error\"), reference, response }\n    }")],
      "why": "module-level carrier with constructor (benign-C06-R9): the entry is published under another name than the one the operations' $ref interpolates"},
+    {"name": "lookup_segments-default-content-type", "kind": "mutant", "expect": ["C07.R3"], "patch": "benign/C03-R12/patch.diff",
+     "edits": [("dropshot/src/router.rs", "                    body_content_type: handler.body_content_type.clone(),", "                    body_content_type: Default::default(),")],
+     "why": "split-lookup idiom (benign-C03-R12, the construction site sits in a closure of lookup_route): the request context is given a default content type instead of the documented one of the selected endpoint"},
     {"name": "load_body-inline-expected", "kind": "benign",
      "edits": [("dropshot/src/extractor/body.rs", "    let expected_content_type = rqctx.endpoint.body_content_type.clone();\n", ""),
                ("dropshot/src/extractor/body.rs", "    let content = match (expected_content_type, body_content_type) {", "    let content = match (rqctx.endpoint.body_content_type.clone(), body_content_type) {")],
